@@ -11,7 +11,8 @@ def run(ctx):
     L = 4 if T else 3
     hcells = [('len0', ['len(ops) == 0'])] + [('len1', ['len(ops) == 1'])]
     for n in range(2, L + 1):
-        hcells += [('len%d_%d_%d' % (n, a, b), ['len(ops) == %d' % n, 'ops[0] == %d' % a, 'ops[1] == %d' % b]) for a in range(NOPS2) for b in range(NOPS2)]
+        hcells += [('len%d_%d_%d' % (n, a, b), ['len(ops) == %d' % n, 'ops[0] == %d' % a, 'ops[1] == %d' % b]) for a in range(NOPS2) for b in range(NOPS2)
+                   if n <= 3 or (a % 2 == 0 and b % 2 == 1)]
     obs = [
         Ob('insert', 'ob_insert', 'nold: int, nnew: int, index: int, k: int, exc: int, use_none: bool',
            pre=['0 <= nold <= 3', '0 <= nnew <= 3', '-7 <= index <= 7', '-1 <= k <= 3', '0 <= exc <= 3', 'k >= 0 or exc == 0'],
